@@ -366,7 +366,7 @@ def build_jobs(prop, tier):
                ("serde-escape-headers-fastq", suite("fastq", {"list": [[64] + h + [10, 65, 10, 43, 10, 73, 10] for h in heads]}, [64], {"fixed": [NEXT, ITER, {"ops": [{"o": "set", "s": 0}, {"o": "serde", "s": 0}], "tail": {"o": "next"}}]}, chunks=[[0]], slots=1, extra=0, flags=fl), 4)]
         J.append(ReaderJob("c19", plain_suites("fasta", tier, fl)[2:4] + plain_suites("fastq", tier, fl)[2:4] + history_suites("fasta", tier, fl, serde=True)[1:] + history_suites("fastq", tier, fl, serde=True)
                            + history_suites("fasta", tier, flv, serde=True)[2:] + history_suites("fastq", tier, flv, serde=True)[1:] + esc))
-    if prop in ("C01", "C02", "C04", "C05", "C06", "C09", "C13", "C14", "C17", "C18", "C19"):
+    if prop in ("C01", "C02", "C03", "C04", "C05", "C06", "C09", "C13", "C14", "C17", "C18", "C19"):
         # long regular inputs (66 000 records and more): contents, counts, positions, the final error's line and a far seek at
         # sampled indices around 2^7, 2^8, 2^15, 2^16, judged by arithmetic (TraceLong.tla)
         J.append(SimpleTvJob("long", "long", "TraceLong", tier))
